@@ -397,5 +397,8 @@ fn main() {
         });
     });
     checks::pstate::scratch_cleanup();
+    // supplementary sanitizer lanes (thorough): corruption sweep under ASan; SecureMemory life-cycle under Miri
+    checks::lanes::run(&mon, "asan", "c18", "45");
+    checks::lanes::run(&mon, "miri", "secmem", "0..4");
     mon.finish();
 }
